@@ -397,4 +397,41 @@ def replay(case):
     return [f"after {json.dumps([list(e) for e in hist])}: {f['detail']}" for f in check_state(w, hist)]
 
 
-CLASSIFIERS = {}
+def _excluded_twice(hist):
+    """Some package is taken out (remove, or replaced away) by two different events of the history."""
+    out = {}
+    for ev in hist:
+        if ev[0] == "remove":
+            out[ev[1]] = out.get(ev[1], 0) + 1
+        elif ev[0] == "replace":
+            old = {"X2": "X1", "Y2": "Y1"}[ev[1]]
+            out[old] = out.get(old, 0) + 1
+    return any(n > 1 for n in out.values())
+
+
+def _k_vdb_filter_set(case):
+    """vdb_filter is a plain set: a package excluded by two log entries (removed, re-added, removed again) loses its
+    exclusion when the later entry is rolled back, and rolling back the earlier one then raises KeyError."""
+    if not _excluded_twice(case.get("hist", [])):
+        return False
+    if case.get("what") == "rollback-state":
+        return case.get("fields") == ["vdb_filter"]
+    return case.get("what") == "backtrack-raised" and "raised KeyError" in case.get("msg", "")
+
+
+def _k_replace_force_old(case):
+    """replace_op decides force_old before it drops the replaced package's own blockers; when one of those blockers matches
+    the replaced package itself, reverting the replace finds no limiter and raises AssertionError."""
+    if case.get("what") != "backtrack-raised" or "unable to revert replace" not in case.get("msg", ""):
+        return False
+    hist = case.get("hist", [])
+    for i, ev in enumerate(hist):
+        if ev[0] == "replace" and ev[1] == "X2" and any(e == ["block", "X1", "BX"] for e in hist[:i]):
+            return True
+    return False
+
+
+CLASSIFIERS = {
+    "vdb-filter-not-refcounted": _k_vdb_filter_set,
+    "replace-revert-asserts-on-own-blocker": _k_replace_force_old,
+}
